@@ -9,7 +9,6 @@ import os
 import re
 import struct
 
-import numpy as np
 
 ROW_ORDER = ['u1', 'u2', 'u3', 'u4', 'irun', 'idet', 'ien', 'signal', 'error']
 ROW_TARGET = {'u1': '1/angstrom', 'u2': '1/angstrom', 'u3': '1/angstrom', 'u4': 'meV',
@@ -64,14 +63,14 @@ def slist(strs):
 
 # ------------------------------------------------------------------ value generators
 def f32_exact(rng):
-    return float(np.float32(rng.uniform(-100, 100)))
+    return struct.unpack('<f', struct.pack('<f', rng.uniform(-100, 100)))[0]
 
 
 def f32_tie(rng):
     """a double exactly half way between two neighbouring float32 values"""
     b = rng.randrange(0x00800000, 0x7F000000)
-    lo = np.frombuffer(struct.pack('<I', b), dtype='<f4')[0]
-    hi = np.frombuffer(struct.pack('<I', b + 1), dtype='<f4')[0]
+    lo = struct.unpack('<f', struct.pack('<I', b))[0]
+    hi = struct.unpack('<f', struct.pack('<I', b + 1))[0]
     v = (float(lo) + float(hi)) / 2.0
     return v if rng.random() < 0.5 else -v
 
